@@ -35,14 +35,14 @@ RDF_TYPE = RDF + "type"
 
 # root cause (Gallina rc / mutation operator) -> finding id
 RC_FINDING = {
-    "ini_base": "C07-F1", "concat": "C07-F2", "dt_custom_prefix": "C07-F6", "dt_hardwired": "C07-F7",
-    "lang_marker": "C07-F8", "typed_marker": "C07-F9", "dir_unresolved": "C07-F13",
+    "ini_base": "C07-F1", "concat": "C07-F2", "dt_custom_prefix": "C07-F6", "dir_unresolved": "C07-F13",
     # reject side (mutation operators of the out-of-dialect stream)
     "glued_punct": "C07-R2", "closure_ignores_state": "C07-R3", "no_position_check": "C07-R4",
 }
 # Repaired (known_findings.json, status fixed; regression cases in corpus/C07 are replayed first and must pass):
 # the comment scan (former F10-F12), the end-of-input check (R1), the base applied twice (F4), '#' of <#frag> (half
-# of F1), the absolute-IRI test (F3), str.replace without count (F5).
+# of F1), the absolute-IRI test (F3), str.replace without count (F5), decide_literal_type reading the whole
+# token (F7-F9, repair C06-B).
 
 
 def load_corpus():
